@@ -164,3 +164,29 @@ theorem reflectBatchN_eq (ray nrm : Fin n → Ray α) (i : Fin n) : reflectBatch
 end
 
 end Odak
+
+/-! ### circles (mask by radius) and NumPy `intersect_w_triangle` -/
+namespace Odak
+open Odak.Gen
+variable {α : Type} [Num α] {m : Nat} [NeZero m]
+
+/-- torch `intersect_w_circle` with a batch of rays: element `i` is the single-ray result for ray `i` (its own distance to the centre
+    decides whether its own distance is set to zero) -/
+theorem intersectCircleRaysT_eq (ray : Fin m → Ray α) (plane : Tri α) (centre : Vec3 α) (radius : α) (i : Fin m) :
+    intersectCircleRaysT ray plane centre radius i = intersectCircleT (ray i) plane.p0 plane.p1 plane.p2 centre radius := rfl
+
+/-- NumPy `intersect_w_circle` with an `[m x 2 x 3]` batch of rays: the NumPy plane hit of ray `i`, its distance set to zero when ITS
+    hit point is farther from the centre than the radius -/
+theorem intersectCircleRaysN_eq (ray : Fin m → Ray α) (plane : Tri α) (centre : Vec3 α) (radius : α) (i : Fin m) :
+    intersectCircleRaysN ray plane centre radius i =
+      ⟨(pairHitN (ray i) plane).point, (pairHitN (ray i) plane).normal,
+       if decide (radius < Vec3.norm ((pairHitN (ray i) plane).point - centre)) = true then Num.ofNat 0
+       else (pairHitN (ray i) plane).distance⟩ := rfl
+
+/-- NumPy `intersect_w_triangle` (one ray): the NumPy plane hit when the three-sided `same_side` test accepts the hit point,
+    `0, 0` (`none`) otherwise -/
+theorem intersectTriangleN_eq (r : Ray α) (t : Tri α) :
+    intersectTriangleN r t =
+      if isOnTriangleN (pairHitN r t).point t.p0 t.p1 t.p2 = true then some (pairHitN r t) else none := rfl
+
+end Odak
